@@ -14,9 +14,11 @@ class FnSpec:
         self.cname = opts.get('as') or re.sub(r'[^A-Za-z0-9_]+', '_', qual.split('::')[-1])
         self.opts = opts
         self.requires = []          # [expr]
+        self.axioms = []            # [expr] assumed when the function is enforced, NOT asserted at call sites (reported as assumptions)
         self.ensures = []           # [(name, expr)]
         self.assigns = []           # [lvalue]
         self.decls = []             # raw C declarations (ghost / logical variables), before requires
+        self.inits = []             # ghost_ assignments made only by the enforce harness, before the call (entry snapshots)
         self.lets = []              # raw C declarations evaluated after requires
         self.loops = {}             # k -> dict(invariant=[(name, expr)], assigns=[], decreases=None)
         self.ghosts = {}            # anchor -> text
@@ -60,6 +62,8 @@ class Unit:
         self.globals = []
         self.structs = []     # (name, [(ctype, field)]) abstraction structs declared by the unit
         self.instantiate = []
+        self.enums = []
+        self.axiom_schemas = []     # names of prelude macros AX(p) assumed for every p; instantiated by VERIF_INSTANTIATE / axiom:
         self.sercov = []      # (class name, {field: reason})
 
 
@@ -143,6 +147,10 @@ def parse(path):
                 u.lib[k.strip()] = v.strip()
             elif d == 'instantiate':
                 u.instantiate += words[1:]
+            elif d == 'enum':
+                u.enums += words[1:]
+            elif d == 'axiom':
+                u.axiom_schemas += words[1:]
             elif d == 'struct':
                 body = ln[1:].split(None, 2)[2]
                 flds = []
@@ -213,6 +221,14 @@ def parse(path):
         elif key == 'sig':
             cur.sig = val
             lastkey = None
+        elif key == 'init':
+            if not re.match(r'ghost_\w+\s*=', val.strip()):
+                raise SpecError('%s:%d init: may only assign a ghost_ variable' % (path, i))
+            cur.inits.append(val)
+            lastkey = None
+        elif key == 'axiom':
+            cur.axioms.append(val)
+            lastkey = (lambda c: (lambda s: c.axioms.__setitem__(-1, c.axioms[-1] + s)))(cur)
         elif key == 'requires':
             cur.requires.append(val)
             lastkey = (lambda c: (lambda s: c.requires.__setitem__(-1, c.requires[-1] + s)))(cur)
@@ -259,6 +275,12 @@ def parse(path):
     for fs in u.functions:
         for anchor, g in fs.ghosts.items():
             for st in [x.strip() for x in re.split(r';\s*(?:\n|$)', g) if x.strip()]:
+                mi = re.match(r'VERIF_INSTANTIATE\((\w+)\s*,', st)
+                if mi:
+                    # an instance of a declared (assumed, reported) axiom schema of this unit
+                    if mi.group(1) not in u.axiom_schemas:
+                        raise SpecError('%s: VERIF_INSTANTIATE of %s, which is not declared with @axiom' % (path, mi.group(1)))
+                    continue
                 if not re.match(r'(VERIF_LEMMA\(|ghost_\w+(\[[^\]]*\]|\.\w+)*\s*(=|\+=|-=)|(real_t|c_int|c_long|c_ulong|c_uint|_Bool|unsigned long|struct \w+)\s+ghost_\w+|if\s*\(.*\)\s*ghost_\w+|GHOST_\w+\()', st):
                     raise SpecError('%s: ghost statement may only state lemmas or assign ghost_ variables: %r' % (path, st))
         if fs.ensures and not any('\\thrown' in e for _, e in fs.ensures) and 'maythrow' not in fs.opts:
